@@ -289,3 +289,28 @@ def gen_message(r, bit_config, alpha, maxbits=12):
     if use_pds:
         m.update(rpds(r, alpha, len(carriers)))
     return m
+
+
+def message_exact(n, enc='latin_1'):
+    """a well-formed message (packaged configuration) whose encoding is exactly n bytes, n >= 40"""
+    m = {'MTI': '1240', 'DE3': '123456'}
+    left = n - 26
+    for de in ('DE72', 'DE127', 'DE111', 'DE54', 'PDS0001', 'PDS0002', 'PDS0003'):
+        if left >= 3 + 999 + 3 + 4:
+            if de.startswith('PDS'):
+                m[de] = 'p' * 992            # fills one carrier element to exactly 999 characters
+            else:
+                m[de] = ('%s-%d ' % (de, n) * 200)[:999]
+            left -= 1002
+    # remainder 3..1004: one LLLVAR (3 + k) and, if needed, DE2 (2 + k) so that every remainder is reachable
+    if left >= 1 + 3 + 3:
+        k = min(999, left - 3 - 3)         # keep at least 3 bytes for DE2
+        m['DE63'] = ('%d:' % n * 400)[:k]
+        left -= 3 + k
+    if left >= 3:
+        m['DE2'] = '5' * (left - 2)
+        left = 0
+    assert left == 0, (n, left)
+    b = iso8583.dumps(dict(m), encoding=enc)
+    assert len(b) == n, (n, len(b))
+    return m
